@@ -126,6 +126,17 @@ def run_case(case):
             diff = compare(None, idx)
             apply(diff, spell(f2), fs, storage="cache", state=state)
             fresh["index"] = walk(f2)
+            # ---- index route over a LAZY index: the whole tree is one unloaded entry pointing at the directory object,
+            # expanded from object storage by compare()
+            from dvc_data.hashfile.meta import Meta
+            from dvc_data.index import DataIndex, DataIndexEntry
+
+            lazy = DataIndex()
+            lazy[("data",)] = DataIndexEntry(key=("data",), meta=Meta(isdir=True), hash_info=obj.hash_info)
+            lazy.storage_map.add_cache(ObjectStorage((), odb))
+            f3 = os.path.join(root, "fresh-lazy")
+            apply(compare(None, lazy), spell(f3), fs, storage="cache", state=state)
+            fresh["lazy"] = walk(os.path.join(f3, "data"))
         return {"src": case["src"], "staged": {"listing": listing, "nfiles": int(nfiles or 0), "size": int(size or 0)},
                 "reloaded": reloaded, "fresh": {r: v[0] for r, v in fresh.items()},
                 "extra": {r: v[1] for r, v in fresh.items()},
@@ -154,7 +165,7 @@ def check(run: core.Run, replay=None):
     quick = run.tier == "quick"
     rng = random.Random(run.seed)
     validate.run_design(run, "MC_RoundTrip", "RoundTrip_quick.cfg", workers=4, required_actions=["Stage", "Transfer", "Reload", "Checkout"],
-                        constants={"paths": list(NAMES), "contents": list(CONTENTS), "routes": ["object", "index"]})
+                        constants={"paths": list(NAMES), "contents": list(CONTENTS), "routes": ["object", "index", "lazy"]})
     if replay:
         cases = [replay["witness"]["case"]]
     else:
